@@ -25,7 +25,7 @@ from _griffe.agents.visitor import Visitor
 from _griffe.exceptions import AliasResolutionError, CyclicAliasError
 from _griffe.loader import GriffeLoader
 from harness.C02_signatures import _render, _spec
-from vlib.ob import cover, fail, obligation, tiered
+from vlib.ob import cover, fail, obligation, tiered, prop
 from vlib.stubs import _is_tracing, realize_value, silence_logging
 
 STUBS = silence_logging()
@@ -179,7 +179,7 @@ def _pre(mkind, child_base, import_form, sig, docs, nested):
     shards=lambda: [(f"method={METHOD_KINDS[m]},child-bases={CHILD_BASES[c]}", None, [dict(mkind=m, child_base=c, import_form=i) for i in range(len(IMPORT_FORMS))]) for m in range(len(METHOD_KINDS)) for c in range(len(CHILD_BASES))],
     pre=_pre,
     drives=[Visitor.visit_functiondef, Visitor.visit_classdef, Visitor.handle_function, Inspector.inspect_module, Inspector.inspect_class, Inspector.handle_function, Inspector.handle_attribute, Inspector.generic_inspect,
-            _convert_parameter, ObjectNode.kind.fget, ObjectNode.alias_target_path.func],
+            _convert_parameter, prop(ObjectNode, "kind"), prop(ObjectNode, "alias_target_path")],
     bounds={"package": "PKG/{__init__.py: from PKG.b import Child; a.py: CONST, f(<signature>), class Base{attr, __init__ (instance attribute), m (<method kind>), optional nested class Inner}; b.py: <import form> + class Other + class Child(<bases>)}",
             "signature of f": f"{len(SIG_SHAPES)} shapes: positional-only 0..1, positional-or-keyword 0..{tiered(1, 2)}, defaults 0..all, keyword-only 0..{tiered(1, 2)} with every default mask, *args / **kwargs",
             "method kind": METHOD_KINDS, "bases of Child": CHILD_BASES, "import form in b": IMPORT_FORMS, "docstrings": "16 presence patterns (module, function, class, method)", "nested class": "present or not"},
